@@ -212,7 +212,40 @@ Next ==
                 /\ expect' = "step"
                 /\ (v = {} \/ PrintT(<<"@@V", tid, l + 1, v>>))
 
-Done == l = NRecs => PrintT(<<"@@D", tid, l>>)
+\* C08: what the project's CSVReader reconstructed from the rows of this run
+HasReader == "reader" \in DOMAIN Tr
+ReaderViol(St) ==
+    IF ~HasReader THEN {}
+    ELSE LET rd == Tr.reader IN
+    IF rd.exc # ""
+    THEN \* known deviation: any TASK_CANCEL row marks the whole graph as dropped in the reader, so an unfinished
+         \* graph with a cancelled (untaken) branch makes its summary assertion fail
+         IF \E i \in 1..Len(St.wl) : LET g == St.wl[i] IN
+                ~GComplete(St, g) /\ ~GCancelled(St, g) /\ \E k \in 1..Len(GTasks(St, g)) : St.ts[GTasks(St, g)[k]].st = CANCELLED
+         THEN {<<"reader", "rejects_unfinished_graph_with_cancelled_branch">>}
+         ELSE {<<"reader", "exception">>}
+    ELSE
+      (IF \E i \in 1..Len(rd.tasks) : rd.tasks[i].t = 0 THEN {<<"reader", "unknown_task">>} ELSE {}) \cup
+      (IF \A t \in 1..NT(St) : St.ts[t].st = COMPLETED =>
+            \E i \in 1..Len(rd.tasks) : LET r == rd.tasks[i] IN
+                /\ r.t = t /\ r.comp = St.ts[t].fin /\ r.rel = St.ts[t].rel /\ r.dl = St.ts[t].dl
+                /\ r.missed = (St.ts[t].fin > St.ts[t].dl) /\ ~r.cancelled /\ r.nplace >= 1 /\ r.ptime = St.ts[t].start
+       THEN {} ELSE {<<"reader", "completed_task">>}) \cup
+      (IF \A i \in 1..Len(rd.tasks) : LET r == rd.tasks[i] IN r.t # 0 =>
+            /\ (r.cancelled => St.ts[r.t].st = CANCELLED)
+            /\ (r.comp # -1 => St.ts[r.t].st = COMPLETED)
+       THEN {} ELSE {<<"reader", "task_status">>}) \cup
+      (IF \A i \in 1..Len(rd.graphs) : LET r == rd.graphs[i] IN r.g # 0 =>
+            /\ (r.comp # -1) = GComplete(St, r.g)
+            /\ (r.comp # -1 => r.comp = SeqMax([k \in 1..Len(Sinks(St, r.g)) |-> St.ts[Sinks(St, r.g)[k]].fin], -1))
+            /\ r.dl = GDeadline(St, r.g) /\ r.n = Len(GTasks(St, r.g))
+       THEN {} ELSE {<<"reader", "graph_status">>}) \cup
+      (IF rd.sim = <<St.ctr.fin, St.ctr.can, St.ctr.miss, St.ctr.gfin,
+                     Cardinality({i \in 1..Len(St.wl) : GCancelled(St, St.wl[i])}), St.ctr.gmiss>>
+       THEN {} ELSE {<<"reader", "summary">>})
+
+Done == l = NRecs => /\ PrintT(<<"@@D", tid, l>>)
+                     /\ (ReaderViol(S) = {} \/ PrintT(<<"@@V", tid, l, ReaderViol(S)>>))
 
 Spec == Init /\ [][Next]_tvars
 =============================================================================
